@@ -2,8 +2,8 @@
 # Each harness is a Go function in /verif/harness (package rapid) executed
 # symbolically by gosym against /repo's working tree.
 
-def H(name, bounds="", reach=(), native=True, thorough_only=False, quick=None, thorough=None, nodiff=False, opts=None, search=None, must_reach=None, unreach_job=None, race=False, search_any=False, sanity_reach=None):
-    return {"name": name, "race": race, "search_any": search_any, "sanity_reach": sanity_reach or [], "bounds": bounds, "reach": list(reach), "native": native,
+def H(name, bounds="", reach=(), native=True, thorough_only=False, quick=None, thorough=None, nodiff=False, opts=None, search=None, must_reach=None, unreach_job=None, race=False, search_any=False, sanity_reach=None, step_confirm_in_executor=False):
+    return {"name": name, "race": race, "search_any": search_any, "sanity_reach": sanity_reach or [], "step_confirm_in_executor": step_confirm_in_executor, "bounds": bounds, "reach": list(reach), "native": native,
             "thorough_only": thorough_only, "quick": quick or {}, "thorough": thorough or {},
             "nodiff": nodiff, "opts": opts or {}, "search": search or [], "must_reach": must_reach or [], "unreach_job": unreach_job}
 
@@ -209,7 +209,7 @@ PROPS = {
         "level": "model_checking",
         "harnesses": [
             H("H_C09_findBug", "real findBug, N in -1..2 (quick) / -1..3 (thorough), every pass/skip/fail outcome sequence (solver-chosen per invocation), deadline far away", reach=["failed", "no-failure", "enough", "budget"], quick=Q, thorough=T),
-            H("H_C09_findBugStep", "ONE iteration of the real findBug loop from an arbitrary loop state (loop cut-point): N any int in [-2, 2^32], valid/invalid any values inside the invariant, any outcome of the iteration, any 64-bit seed; invariant, exact counting, immediate return on failure, exit condition valid==N or invalid==10N, seed schedule step", reach=["iterated", "failed", "exited", "loop-back-edge"], quick=Q, thorough=T, search=["valid0", "invalid0", "checks"], search_any=True),
+            H("H_C09_findBugStep", "ONE iteration of the real findBug loop from an arbitrary loop state (loop cut-point): N any int in [-2, 2^32], valid/invalid any values inside the invariant, any outcome of the iteration, any 64-bit seed; invariant, exact counting, immediate return on failure, exit condition valid==N or invalid==10N, seed schedule step", reach=["iterated", "failed", "exited", "loop-back-edge"], quick=Q, thorough=T, search=["valid0", "invalid0", "checks"], search_any=True, step_confirm_in_executor=True),
             H("H_C09_failfileFlaky", "real checkTB with a valid fail file present and a property whose outcome per invocation is chosen by the solver (so also 'fails on replay, passes on reproduction')", reach=["falsified", "failfile-falsified"], native=False, quick=Q, thorough=T),
             H("H_C09_verdict", "real checkTB with -rapid.checks in 1..2, -rapid.nofailfile, shrinktime 0, every outcome sequence", reach=["falsified", "passed", "only-generated"], quick=Q, thorough=T),
         ],
@@ -228,7 +228,7 @@ PROPS = {
         "harnesses": [H("H_C02_checkOnce", TSTATE_BOUNDS, reach=TSTATE_REACH, quick=Q, thorough=T),
                       H("H_C09_failfileFlaky", "real checkTB with a valid fail file present and a property whose outcome per invocation is chosen by the solver (fails on the first replay, passes on the second, ...): a falsified invocation always fails the test", reach=["falsified", "failfile-falsified"], native=False, quick=Q, thorough=T),
                       H("H_C02_lateGoroutine", "real findBug with 2 test cases in the executor's concurrent mode: test case 1 starts a goroutine that calls t.Errorf on its *T at any later point (every interleaving, <=2 preemptions) up to the middle of test case 2, which waits for it; Check must report a failure", reach=["signal-seen-by-the-next-test-case", "signal-seen-by-its-own-test-case"], quick=Q, thorough=T, race=True, nodiff=True),
-                      H("H_C09_findBugStep", "one iteration of findBug from any loop state with a symbolic clock: a test case that ran and falsified the property is never dropped (see C09)", reach=["iterated", "failed", "early-exit"], quick=Q, thorough=T, search=["valid0", "invalid0", "checks"], search_any=True)],
+                      H("H_C09_findBugStep", "one iteration of findBug from any loop state with a symbolic clock: a test case that ran and falsified the property is never dropped (see C09)", reach=["iterated", "failed", "early-exit"], quick=Q, thorough=T, search=["valid0", "invalid0", "checks"], search_any=True, step_confirm_in_executor=True)],
         "assumptions": ENGINE_ASSUME + ["fail files live in the in-memory file system model"],
     },
     "C10": {
